@@ -92,7 +92,7 @@ PROPS = {
     "C24": dict(level="exploration", parts=[dict(engine="e3", quick=6000, thorough=150000)],
                 text="Threads create inputs, tracked structs (through queries on distinct keys) and interned values concurrently while handles are cloned and dropped; ids of inputs pairwise distinct, tracked-struct ids distinct per (creator, ident), every id reads back the fields it was created with.",
                 note="Page recycling is exercised through clone/drop of handles; the small-page knob is not built."),
-    "C22": dict(level="fault_enumeration", parts=[dict(engine="e1", quick=100, thorough=6000), dict(engine="e3", quick=4000, thorough=100000)],
+    "C22": dict(level="fault_enumeration", parts=[dict(engine="e1", quick=100, thorough=6000), dict(engine="e3", quick=500, thorough=15000)],
                 text="Fault enumeration (E1): every generated base history is first run fault-free to count user callbacks by class (body op, V::eq, V::hash, cycle_fn, cycle_initial/cycle_result, event callback); it is then re-run with a panic injected at every callback of the rare classes and a sample of body ops. Oracle: the panic reaches the caller of that step, the step is retried (after a new revision for poisoned cycle members) and every later result = reference; a process abort (double panic) is reported from the worker's seed file. Concurrent part (E3): a panic at a random callback while other threads request the same or dependent nodes: waiters get PropagatedPanic or a correct value, never hang.",
                 note="One genuine defect was repaired (fix: commit f6eb44f), one is recorded (known-findings.txt: stale-output deletion interrupted by an event-callback panic)."),
     "C23": dict(level="exploration", parts=[dict(engine="e1", quick=2500, thorough=60000)],
@@ -246,14 +246,44 @@ def run_check(prop, tier):
     finish_check(prop, tier, cfg, parts, seed, t0, out_root, all_outs, results, harness_errors, aborts)
 
 
+HANG_S = float(os.environ.get("VERIF_HANG_S", "120"))
+
+
 def run_part(procs, results, harness_errors, aborts):
+    """Wait for the workers of one part. A worker whose current seed (file cur.<pid>, rewritten
+    before every run) does not change for HANG_S seconds is killed: the run it is stuck in
+    neither finished nor reached a scheduling point, which is reported as a hang of that seed."""
+    state = {}
+    pending = list(procs)
+    while pending:
+        time.sleep(0.25)
+        now = time.time()
+        for item in list(pending):
+            w, out, engine, p = item
+            if p.poll() is not None:
+                pending.remove(item)
+                continue
+            cur = None
+            try:
+                names = [f for f in os.listdir(out) if f.startswith("hb.")]
+                if names:
+                    cur = open(os.path.join(out, names[0])).read()
+            except OSError:
+                pass
+            last = state.get(w)
+            if last is None or last[0] != cur:
+                state[w] = (cur, now)
+            elif now - last[1] > HANG_S:
+                p.kill()
+                state[w] = (cur, now, "hung")
     for w, out, engine, p in procs:
         so, se = p.communicate()
+        hung = len(state.get(w, ())) == 3
         if p.returncode != 0:
             # attributable abort: the worker wrote the seed it was about to run
             cur = [f for f in os.listdir(out) if f.startswith("cur.")] if os.path.isdir(out) else []
             seedinfo = open(os.path.join(out, cur[0])).read().split() if cur else None
-            aborts.append((w, p.returncode, seedinfo, se[-2000:], engine))
+            aborts.append((w, "hang" if hung else p.returncode, seedinfo, se[-2000:], engine))
             continue
         r = json.load(open(os.path.join(out, "result.json")))
         r["engine"] = engine
@@ -292,7 +322,11 @@ def finish_check(prop, tier, cfg, parts, seed, t0, out_root, all_outs, results, 
             known_hit_counts[k] = known_hit_counts.get(k, 0) + v
     for r in results:
         for v in r["violations"] + r.get("known_samples", []):
-            p = subprocess.run([sim_bin(r["engine"]), "replay", v["replay"]], env=ENV, stdout=subprocess.PIPE, stderr=subprocess.PIPE, text=True)
+            try:
+                p = subprocess.run([sim_bin(r["engine"]), "replay", v["replay"]], env=ENV, stdout=subprocess.PIPE, stderr=subprocess.PIPE, text=True, timeout=4 * HANG_S)
+            except subprocess.TimeoutExpired:
+                harness_errors.append(f"replay of {v['replay']} did not finish")
+                continue
             if p.returncode == 1 and "REPRODUCED" in p.stdout:
                 sig = v.get("signature", "")
                 hit = [k for k in known if k[0] == prop and k[1] == sig]
@@ -310,6 +344,18 @@ def finish_check(prop, tier, cfg, parts, seed, t0, out_root, all_outs, results, 
             # reproduce the abort in a fresh process from the seed
             os.makedirs(rep_dir, exist_ok=True)
             dst = os.path.join(rep_dir, f"{prop}-{seedinfo[1]}.abort.json")
+            if rc == "hang":
+                # regenerate the case from its seed (generation only) and confirm the hang by
+                # replaying it under a time limit in a fresh process
+                p = subprocess.run([sim_bin(engine), "gen", "--prop", prop, "--seed", seedinfo[1], "--tier", tier], env=ENV, stdout=subprocess.PIPE, stderr=subprocess.PIPE, text=True)
+                dst = os.path.join(rep_dir, f"{prop}-{seedinfo[1]}.hang.json")
+                open(dst, "w").write(p.stdout)
+                try:
+                    subprocess.run([sim_bin(engine), "replay", dst], env=ENV, stdout=subprocess.PIPE, stderr=subprocess.PIPE, text=True, timeout=HANG_S)
+                    harness_errors.append(f"worker {w} was killed as hung at seed {seedinfo[1]} but the seed terminates when replayed alone")
+                except subprocess.TimeoutExpired:
+                    confirmed.append(({"seed": int(seedinfo[1]), "classes": ["hang"], "detail": f"the run neither finished nor reached a scheduling point within {HANG_S:.0f}s (worker killed; replay hangs as well)", "signature": f"{prop}|hang"}, dst))
+                continue
             p = subprocess.run([sim_bin(engine), "show", "--prop", prop, "--seed", seedinfo[1], "--tier", tier], env=ENV, stdout=subprocess.PIPE, stderr=subprocess.PIPE, text=True)
             if p.stdout.strip().startswith("{"):
                 open(dst, "w").write(p.stdout)
